@@ -351,7 +351,7 @@ coap_oscore_new_pdu_encrypted_lkd(coap_session_t *session,
   oscore_sender_ctx_t *snd_ctx;
   uint8_t external_aad_buffer[200];
   coap_bin_const_t external_aad;
-  uint8_t oscore_option[48];
+  uint8_t oscore_option[255];
   size_t oscore_option_len;
 
   /* Check that OSCORE has not already been done */
@@ -472,6 +472,17 @@ coap_oscore_new_pdu_encrypted_lkd(coap_session_t *session,
   }
   if (kid_context) {
     cose_encrypt0_set_kid_context(cose, kid_context);
+  }
+  /*
+   * Flag byte, Partial IV, kid context with its length byte (and CBOR
+   * header when wrapped for Appendix B.2) and kid have to fit - there is no
+   * check when they are written.
+   */
+  if (1 + cose->partial_iv.length +
+      (cose->kid_context.length ? cose->kid_context.length + 1 + 3 : 0) +
+      cose->key_id.length > sizeof(oscore_option)) {
+    coap_log_warn("OSCORE: ID Context too long for the OSCORE option\n");
+    goto error;
   }
   oscore_option_len =
       oscore_encode_option_value(oscore_option, sizeof(oscore_option), cose,
